@@ -4,6 +4,9 @@ import Driver.Utf8
 import Driver.Nego
 import Driver.TaskQ
 import Driver.Map
+import Driver.Handshake
+import Driver.Conn
+import Driver.Deque
 
 open Drv
 
@@ -17,13 +20,19 @@ def dispatch (line : String) : Res :=
   | "taskq" :: args => runTaskQ args
   | "cmap" :: args => runCmap args
   | "cmapconc" :: args => runCmapConc args
+  | "hs-server" :: args => runHsServer args
+  | "hs-client" :: args => runHsClient args
+  | "conn" :: args => runConn args
+  | "deque" :: args => runDeque args
   | _ => bad "unknown-suite"
 
 partial def loop (hin hout : IO.FS.Stream) : IO Unit := do
   let line ← hin.getLine
   if line.isEmpty then return ()
   let l := (line.dropEndWhile (fun c => c == '\n' || c == '\r')).toString
-  hout.putStrLn (dispatch l).render
+  match (l.splitOn " ").filter (· ≠ "") with
+  | "conngen" :: args => for c in genConn args do hout.putStrLn c
+  | _ => hout.putStrLn (dispatch l).render
   loop hin hout
 
 def main : IO Unit := do
